@@ -83,8 +83,9 @@ theorem C05_perm_conserves (v : VW) (buf : List α) (h : v.Inv buf.length) (g : 
     (hg : ∀ c r, c < v.numCols → r < v.numRows → (g (c, r)).1 < v.numCols ∧ (g (c, r)).2 < v.numRows)
     (hinj : ∀ c r c' r', c < v.numCols → r < v.numRows → c' < v.numCols → r' < v.numRows →
       g (c, r) = g (c', r') → (c, r) = (c', r')) :
-    (gather buf (v.mapCells g)).Perm buf := by
-  sorry
+    (gather buf (v.mapCells g)).Perm buf :=
+  ow_gather_perm buf _ (fun _ hp => VW.mapCells_lt h g hg hp)
+    (fun p q _ _ he => ow_mapCells_inj h g hg hinj p q he)
 
 /-- an overwrite keeps the buffer's length: one old cell leaves (is dropped) for each new cell that enters -/
 theorem C05_upd_length (v : VW) (buf : List α) (f : Nat × Nat → Option α) :
